@@ -333,6 +333,20 @@ def extract_checks(repo, key):
     return pts, ker, chain
 
 
+def extract_nist_api(repo):
+    """src/sqisign.c: for each NIST-style entry point, the constant it returns when its body is a stub
+    (`int ret = <const>; return ret;` and nothing else), or None when it is wired to real code"""
+    src = strip_comments(open(os.path.join(repo, "src/sqisign.c")).read())
+    out = []
+    for fn in ("sqisign_keypair", "sqisign_sign", "sqisign_open", "sqisign_verify"):
+        body = find_function(src, fn)
+        if body is None:
+            raise TranslateError("src/sqisign.c: %s not found" % fn)
+        m = re.fullmatch(r"\s*int\s+ret\s*=\s*(-?\d+)\s*;\s*return\s+ret\s*;\s*", body)
+        out.append((fn, int(m.group(1)) if m else None))
+    return out
+
+
 def emit_fn(name, params, conds):
     lines = ["def %s %s : Bool :=" % (name, params)]
     terms = []
@@ -376,6 +390,12 @@ def generate(repo, outdir):
                 "def %sChainCheck : Bool := %s" % (key, "true" if chain else "false"), ""]
         if not (pts and ker and chain):
             msgs.append("%s: validity checks of the chain kernel incomplete (points=%d, kernel=%s, chain=%s)" % (key, len(pts), ker, chain))
+    api = extract_nist_api(repo)
+    out += ["/-- src/sqisign.c: (entry point, is a stub, constant returned by the stub) -/",
+            "def nistApi : List (String × Bool × Int) := [%s]" %
+            ", ".join('("%s", %s, %d)' % (f, "true" if r is not None else "false", r if r is not None else 0) for f, r in api), ""]
+    if any(r == 0 for _, r in api):
+        msgs.append("src/sqisign.c: stub entry points return 0 (= success): %s" % [f for f, r in api if r == 0])
     out += ["end SqiGen.VerifGuard", ""]
     if write_if_changed(os.path.join(outdir, "VerifGuard.lean"), "\n".join(out)):
         msgs.append("VerifGuard.lean regenerated")
